@@ -52,7 +52,9 @@ class MockFS:
 
     def store(self, prov, fso):
         self._objects[prov.normalize_path(fso.path)] = fso
-        if fso.oid not in self._objects:
+        stored = self._objects.get(fso.oid)
+        if stored is None or not stored.exists:
+            # a deleted object no longer owns its id: path-style ids are used again when the path is
             self._objects[fso.oid] = fso
 
     def unstore(self, prov, fso):
